@@ -122,12 +122,17 @@ class _StubRateControl:
     def __init__(self, ctx):
         self.ctx = ctx
         self.n = 0
+        self.calls = []
+        self.on_update = None
 
     def feedback_interval(self):
         return 500
 
     def update(self, usage, throughput, now_ms):
         self.n += 1
+        self.calls.append((throughput, now_ms))
+        if self.on_update is not None:
+            self.on_update(throughput, now_ms)
         if self.ctx.bool("rc%d_none" % self.n):
             return None
         # (the 18-bit mantissa / exponent loop of pack_remb_fci forks once per bit beyond 18: the full
@@ -145,6 +150,17 @@ def h_orchestration(ctx, npk, W):
     e.rate_control = _StubRateControl(ctx)
     now = ctx.int("t0", 0, 1 << 30)
     seen = []
+    arrivals = []  # ghost: (arrival time, size) of every packet so far
+
+    def on_update(throughput, now_ms):
+        # the measurement handed to the controller is computed over exactly the packets that
+        # arrived within the last W ms (numerator of the rate)
+        total = 0
+        for t, s in arrivals:
+            total = total + sx.ite(t > now_ms - W, s, 0)
+        ctx.check(sx.eq(e.incoming_bitrate._total.value, total), "measurement-covers-exactly-the-packets-of-the-last-window")
+
+    e.rate_control.on_update = on_update
     for i in range(npk):
         if i:
             # small symbolic gaps; estimates are triggered by the first packet and by OVERUSING
@@ -152,7 +168,9 @@ def h_orchestration(ctx, npk, W):
             now = now + ctx.int("gap%d" % i, 0, 2 * W)
         ssrc = ctx.int("ssrc%d" % i, 0, U32)
         e.detector.step()
-        res = e.add(arrival_time_ms=now, abs_send_time=ctx.int("ast%d" % i, 0, 0xFFFFFF), payload_size=ctx.int("size%d" % i, 0, 1500), ssrc=ssrc)
+        size = ctx.int("size%d" % i, 0, 1500)
+        arrivals.append((now, size))
+        res = e.add(arrival_time_ms=now, abs_send_time=ctx.int("ast%d" % i, 0, 0xFFFFFF), payload_size=size, ssrc=ssrc)
         if not any(bool(s == ssrc) for s in seen):
             seen.append(ssrc)
         ctx.reach("added")
